@@ -152,11 +152,10 @@ func (w *WorkerGrp) signalExit() {
 
 // localize hash to worker
 func (w *WorkerGrp) locHash(k Hashed2Int) int {
-	var hashNum = k.HashedInt()
+	var hashNum = k.HashedInt() % w.muxSize
 	if hashNum < 0 {
 		hashNum = -hashNum
 	}
-	hashNum %= w.muxSize
 	return hashNum
 }
 
